@@ -124,6 +124,26 @@ class Runner:
                 elif status == "harness_error":
                     harness_errors.append((i, payload))
                 else:
+                    # a worker runs many cases: a death (or a stall) can be the late effect of an earlier case's damage to the
+                    # process (the dependency crashes listed as known findings) or of machine load.  The case is blamed only
+                    # if it does the same alone in a fresh process; otherwise its fresh result counts and the event is
+                    # reported in the evidence as unattributed.
+                    confirmed = True
+                    for job2, st2, pl2 in run_pool(self._job, [job], 1, self.case_timeout, None, self.rlimit_as, lambda wid: self._init_worker(10000)):
+                        if st2 == "ok":
+                            confirmed = False
+                            self._merge(agg, pl2)
+                            for v in pl2.get("violations", []):
+                                violations.append((i, pl2.get("case"), v))
+                            key = "unattributed_worker_%s" % ("stalls" if status == "timeout" else "deaths")
+                            agg["extra"][key] = agg["extra"].get(key, 0) + 1
+                            print("NOTE: worker %s while running case %d (%s); the case passes alone in a fresh process - not attributed to it" % (
+                                "stalled" if status == "timeout" else "died", i, payload), flush=True)
+                        elif st2 == "harness_error":
+                            confirmed = False
+                            harness_errors.append((i, pl2))
+                    if not confirmed:
+                        continue
                     case = self.mod.gen_case(Rng(self.seed, self.prop, i), i, self.tier)
                     oracle = "wall_timeout_backstop" if status == "timeout" else "interpreter_died"
                     fp = {"oracle": oracle, "site": "case"}
